@@ -130,6 +130,16 @@ class ScriptedSim(mosaik_api_v3.Simulator):
         self._rec(op="init", sid=sid, time_resolution=time_resolution, pid=os.getpid())
         if not self.remote:
             REC.instances[sid] = self
+        if self.spec.get("meta_is_a_customised_copy"):
+            # init() returns a per-instance description while self.meta stays a bare class-level template
+            # (attrs only): what init() RETURNS is the simulator's description
+            returned = self.meta
+            self.meta = copy.deepcopy(returned)
+            for m_ in self.meta["models"].values():
+                for key in ("trigger", "non-trigger", "persistent", "non-persistent", "any_inputs"):
+                    m_.pop(key, None)
+                m_.setdefault("attrs", [])
+            return returned
         return self.meta
 
     def create(self, num, model, **params):
